@@ -3,6 +3,7 @@ import ecount
 import eptr
 import eslot
 import eidx
+import eslab
 import eswap
 import ewho
 import witness
@@ -125,6 +126,11 @@ def run(ctx):
                 "for a one-bit tag and for no tag.")
     nit = eidx.run(ctx, F)
     ctx.floor("E-IDX.tagbits", "interpreted constant / accessor situations", nit, 18)
+    ctx.explain("E-SLAB.page: a fresh page of the pointer-based manager's slab allocator (Page::new, interpreted with integer addresses: "
+                "256 byte page, 40 byte header, 16 byte slots) threads exactly the 13 slots that fit into one null-terminated free list "
+                "inside the page; Page::page_ptr masks any address of the page to its base.")
+    nsl = eslab.run(ctx, F)
+    ctx.floor("E-SLAB.page", "interpreted slab page situations", nsl, 4)
     ctx.explain("E-FREELIST.sentinel: every constant that meets a free-list head (Cell::set / replace, pop().unwrap_or, comparisons) is "
                 "the end-of-list marker 0. E-FREELIST.countsign: the shared node count receives deltas by addition; subtractions are "
                 "`-= 1` only.")
